@@ -58,6 +58,10 @@ fn lib() -> roto::Library {
             INITS.with(|l| l.borrow_mut().push(k));
             (k as i64 + 1) * 1000
         }
+        /// log the evaluation of the zero-sized constant k; there is no value to return
+        fn zinit(k: u32) {
+            INITS.with(|l| l.borrow_mut().push(k));
+        }
     }
 }
 
@@ -146,6 +150,26 @@ enum Item {
     Node(usize),
     Type(usize),
     Helper(usize),
+    /// zero-sized constant
+    Z(usize),
+}
+
+/// A constant of a zero-sized type: `()`, or a record whose fields are all `()`. It has no
+/// value, only the effect of its initialiser (`zinit(id)`), which must happen exactly once, after
+/// the constant it mentions (`dep`) and before the constant that mentions it (`user`).
+#[derive(Clone, Debug)]
+struct ZConst {
+    /// the id its initialiser logs (continues the numbering of the nodes)
+    id: usize,
+    name: String,
+    /// name of its record type (form 2 / 3)
+    rec_name: String,
+    module: usize,
+    /// 0: `= zinit(id)`, 1: `= { let t = <dep>; zinit(id) }`, 2: record of units, mark in a field,
+    /// 3: record of units, mark in a statement before the literal
+    form: u8,
+    dep: Option<usize>,
+    user: Option<usize>,
 }
 
 #[derive(Clone, Debug)]
@@ -189,6 +213,8 @@ struct Graph {
     n_groups: usize,
     used_names: BTreeSet<String>,
     tags: BTreeSet<String>,
+    /// zero-sized constants (added once the nodes are final)
+    zconsts: Vec<ZConst>,
 }
 
 /// Ways a context variable can be read (all are reads of `cv`, an i64).
@@ -506,6 +532,7 @@ fn gen_graph(rng: &mut Rng) -> Graph {
         n_groups: 0,
         used_names,
         tags: BTreeSet::new(),
+        zconsts: Vec::new(),
     };
 
     // turn some functions into recursive groups: the further members get their own
@@ -724,6 +751,7 @@ impl Printer<'_> {
             Item::Node(i) => self.g.nodes[i].name.clone(),
             Item::Type(t) => self.g.types[t].name.clone(),
             Item::Helper(h) => self.helpers[h].name.clone(),
+            Item::Z(z) => self.g.zconsts[z].name.clone(),
         }
     }
 
@@ -732,6 +760,7 @@ impl Printer<'_> {
             Item::Node(i) => self.g.nodes[i].module,
             Item::Type(t) => self.g.types[t].module,
             Item::Helper(h) => self.helpers[h].module,
+            Item::Z(z) => self.g.zconsts[z].module,
         }
     }
 
@@ -1058,6 +1087,16 @@ impl Printer<'_> {
         if n.ctx_read {
             terms.push(CTX_FORMS[self.g.ctx_form].1.to_string());
         }
+        for z in 0..self.g.zconsts.len() {
+            if self.g.zconsts[z].user == Some(i) {
+                let r = self.refer(Item::Z(z), from);
+                terms.push(match self.rng.below(3) {
+                    0 => format!("{{ let z = {r}; 0 }}"),
+                    1 => format!("{{ {r}; 0 }}"),
+                    _ => format!("(if {r} == {r} {{ 0 }} else {{ 1 }})"),
+                });
+            }
+        }
         // some terms make a round trip through a local value of a random shape
         for (k, t) in terms.iter_mut().enumerate() {
             if k > 0 && self.rng.chance(1, 10) {
@@ -1088,6 +1127,29 @@ impl Printer<'_> {
             let base = self.wrap(&sh, "acc", from);
             let stepped = self.wrap(&sh, &step.join(" + "), from);
             format!("fn {name}(d: i64) -> {ty} {{\n    let acc: i64 = {terms};\n    if d <= 0 {{\n        {base}\n    }} else {{\n        {stepped}\n    }}\n}}\n")
+        }
+    }
+
+    fn z_source(&mut self, z: usize) -> String {
+        self.cur = Item::Z(z);
+        let zc = self.g.zconsts[z].clone();
+        let (name, id, from) = (zc.name.clone(), zc.id, zc.module);
+        let dep = zc.dep.map(|d| {
+            let depth = self.g.nodes[d].getter_depth.to_string();
+            self.mention(d, &depth, from)
+        });
+        let rec = zc.rec_name.clone();
+        match zc.form {
+            0 => format!("const {name}: () = zinit({id});\n"),
+            1 => format!("const {name}: () = {{ let t = {}; zinit({id}) }};\n", dep.unwrap_or("0".into())),
+            2 => {
+                let pre = dep.map(|d| format!("let t = {d}; ")).unwrap_or_default();
+                format!("record {rec} {{ u: (), w: () }}\nconst {name}: {rec} = {{ {pre}{rec} {{ u: zinit({id}), w: () }} }};\n")
+            }
+            _ => {
+                let pre = dep.map(|d| format!("let t = {d}; ")).unwrap_or_default();
+                format!("const {name}: {rec} = {{ {pre}zinit({id}); {rec} {{ u: () }} }};\nrecord {rec} {{ u: () }}\n")
+            }
         }
     }
 
@@ -1169,6 +1231,10 @@ fn sources(g: &Graph, rng: &mut Rng, tags: &mut BTreeSet<String>) -> Vec<(String
         p.plain_copies = false;
         getters.push_str(&format!("fn get{i}() -> i64 {{\n    {e}\n}}\n"));
     }
+    for z in 0..g.zconsts.len() {
+        let s = p.z_source(z);
+        text.insert(Item::Z(z), s);
+    }
     for h in 0..p.helpers.len() {
         let s = p.helper_source(h);
         text.insert(Item::Helper(h), s);
@@ -1189,6 +1255,10 @@ fn sources(g: &Graph, rng: &mut Rng, tags: &mut BTreeSet<String>) -> Vec<(String
     for h in 0..p.helpers.len() {
         let pos = p.rng.usize(order.len() + 1);
         order.insert(pos, Item::Helper(h));
+    }
+    for z in 0..g.zconsts.len() {
+        let pos = p.rng.usize(order.len() + 1);
+        order.insert(pos, Item::Z(z));
     }
     let types_first = p.rng.chance(1, 4);
     for (k, &t) in used.iter().enumerate() {
@@ -1286,6 +1356,33 @@ fn gen_case(rng: &mut Rng) -> Case {
         }
         if any {
             g.tags.insert("valid:context-read-in-unreached-function".into());
+        }
+    }
+    // zero-sized constants: no storage is needed for them, their initialisers still have to run
+    if rng.chance(1, 2) {
+        let consts: Vec<usize> = (0..g.nodes.len()).filter(|i| g.nodes[*i].is_const).collect();
+        for _ in 0..(1 + rng.usize(2)) {
+            let user = if rng.chance(2, 3) { Some(consts[rng.usize(consts.len())]) } else { None };
+            // what it mentions: something its user already reaches (no new cycle), else any constant
+            let below: Vec<usize> = match user {
+                Some(u) => {
+                    let mut seen = BTreeSet::new();
+                    let mut out = BTreeSet::new();
+                    g.const_deps(u, &mut seen, &mut out);
+                    seen.into_iter().filter(|d| g.nodes[*d].group.is_none() || g.nodes[*d].is_const).collect()
+                }
+                None => consts.clone(),
+            };
+            let form = rng.below(4) as u8;
+            let dep = if form != 0 && !below.is_empty() && rng.chance(2, 3) { Some(below[rng.usize(below.len())]) } else { None };
+            let form = if form == 1 && dep.is_none() { 0 } else { form };
+            let name = fresh_name(rng, &mut g.used_names, Style::Upper);
+            let rec_name = fresh_name(rng, &mut g.used_names, Style::Upper);
+            let module = rng.usize(g.n_modules());
+            let id = g.nodes.len() + g.zconsts.len();
+            g.tags.insert(format!("zero-sized-const:{}", ["unit", "unit-block", "unit-record-field", "unit-record-stmt"][form as usize]));
+            g.tags.insert(format!("zero-sized-const:dep-{}:user-{}", dep.is_some(), user.is_some()));
+            g.zconsts.push(ZConst { id, name, rec_name, module, form, dep, user });
         }
     }
     let mut tags: BTreeSet<String> = g.tags.clone();
@@ -1534,8 +1631,51 @@ impl Family for ConstOrder {
                                         );
                                     }
                                 }
+                                for z in &g.zconsts {
+                                    let cnt = during.iter().filter(|x| **x as usize == z.id).count();
+                                    if cnt != 1 {
+                                        out.viol(
+                                            format!("const:zero-sized-evaluated-{}-times", if cnt == 0 { "zero" } else { "many" }),
+                                            format!("zero-sized constant {} (zinit({})) was evaluated {cnt} times during compilation (log {during:?})", z.name, z.id),
+                                            J::Null,
+                                        );
+                                    }
+                                }
                                 // dependency order
                                 let pos: BTreeMap<usize, usize> = during.iter().enumerate().map(|(p, k)| (*k as usize, p)).collect();
+                                for z in &g.zconsts {
+                                    let mut before = BTreeSet::new();
+                                    if let Some(d) = z.dep {
+                                        if g.nodes[d].is_const {
+                                            before.insert(d);
+                                        }
+                                        g.const_deps(d, &mut BTreeSet::new(), &mut before);
+                                    }
+                                    for d in before {
+                                        out.events += 1;
+                                        if let (Some(pz), Some(pd)) = (pos.get(&z.id), pos.get(&d))
+                                            && pd > pz
+                                        {
+                                            out.viol(
+                                                "const:zero-sized-evaluated-before-dependency",
+                                                format!("zero-sized {} (zinit({})) was evaluated before {} (init({d})), which it depends on (log {during:?})", z.name, z.id, g.nodes[d].name),
+                                                J::Null,
+                                            );
+                                        }
+                                    }
+                                    if let Some(u) = z.user {
+                                        out.events += 1;
+                                        if let (Some(pz), Some(pu)) = (pos.get(&z.id), pos.get(&u))
+                                            && pz > pu
+                                        {
+                                            out.viol(
+                                                "const:evaluated-before-zero-sized-dependency",
+                                                format!("{} (init({u})) was evaluated before the zero-sized {} (zinit({})), which it mentions (log {during:?})", g.nodes[u].name, z.name, z.id),
+                                                J::Null,
+                                            );
+                                        }
+                                    }
+                                }
                                 for &c in &consts {
                                     let mut deps = BTreeSet::new();
                                     g.const_deps(c, &mut BTreeSet::new(), &mut deps);
